@@ -228,6 +228,9 @@ class Repo:
             tree = ast.parse(src, filename=full)
         except SyntaxError as e:
             raise AnalysisError("cannot parse %s: %s" % (rel, e))
+        if '/tests/' not in rel:
+            from .normalize import canonical_imports
+            canonical_imports(tree)
         self._normalise(rel, tree)
         inlined = []
         if '/tests/' not in rel:
